@@ -20,7 +20,7 @@ pub fn run_c02(ctx: &Ctx) {
     run_l2_part(ctx, "l2", Prop::C02, P_C02, ctx.tier.scale(240_000, 10),
         &[("saturated", 0.5), ("limit-constrained", 0.2), ("race-done", 0.1)],
         "some quiescent state had a non-empty backlog with every worker at its limit (the limit constrained dispatch), or a finish-before-count race happened on a saturated worker");
-    run_l4_part(ctx, crate::l4::Prop::C02, crate::l4::gen::P { pause: 0, inject: 0, panic: 0, stop: 0, uds: false, max_limit: 3 }, ctx.tier.scale(400, 4), &[("saturated-with-waiting", 0.3)], "every worker at its limit with a client still waiting");
+    run_l4_part(ctx, crate::l4::Prop::C02, crate::l4::gen::P { pause: 0, inject: 0, panic: 0, stop: 0, busy: 0, uds: false, max_limit: 3 }, ctx.tier.scale(400, 4), &[("saturated-with-waiting", 0.2)], "every worker at its limit with a client still waiting");
 }
 
 pub fn replay_c02(ctx: &Ctx, v: &Value) -> i32 {
@@ -72,7 +72,10 @@ pub fn run_c03(ctx: &Ctx) {
     run_l2_part(ctx, "l2", Prop::C03, P_C03, ctx.tier.scale(240_000, 10),
         &[("saturated", 0.5), ("finish-while-saturated-with-backlog", 0.15), ("race-done", 0.1)],
         "a connection finished on a worker that was at its limit while a client was waiting, followed by a quiescence check");
-    run_l4_part(ctx, crate::l4::Prop::C03, crate::l4::gen::P { pause: 0, inject: 0, panic: 0, stop: 0, uds: false, max_limit: 3 }, ctx.tier.scale(400, 4), &[("release-while-saturated", 0.3)], "a held connection is released while every worker is at its limit and a client waits");
+    run_l2_part(ctx, "l2-with-faults", Prop::C03, P_C03_FAULT, ctx.tier.scale(120_000, 10),
+        &[("fault-discovered", 0.4), ("finish-while-saturated-with-backlog", 0.1), ("replace", 0.3)],
+        "as above, in histories where a worker died and was replaced (a live worker below its limit must still be used)");
+    run_l4_part(ctx, crate::l4::Prop::C03, crate::l4::gen::P { pause: 0, inject: 0, panic: 0, stop: 0, busy: 0, uds: false, max_limit: 3 }, ctx.tier.scale(400, 4), &[("release-while-saturated", 0.2)], "a held connection is released while every worker is at its limit and a client waits");
 }
 
 pub fn replay_c03(ctx: &Ctx, v: &Value) -> i32 {
@@ -172,6 +175,8 @@ pub fn run_c04(ctx: &Ctx) {
     // (b) dispatch histories
     run_l2_part(ctx, "l2-unsaturated", Prop::C04, P_C04_UNSAT, ctx.tier.scale(120_000, 10), &[("dispatches>W", 0.5)],
         ">= 2 workers and more dispatches than workers; no worker ever saturated: any W consecutive dispatches go to W distinct workers");
+    run_l2_part(ctx, "l2-after-restart", Prop::C04, P_C04_FAULT, ctx.tier.scale(120_000, 10), &[("fault-discovered", 0.4), ("replace", 0.4), ("saturated", 0.5)],
+        "a worker was killed, replaced and rejoined, and a worker was saturated afterwards: once every fault is resolved a saturated worker receives nothing (handle positions and worker indices have diverged)");
     run_l2_part(ctx, "l2-skipping", Prop::C04, P_C04_SAT, ctx.tier.scale(120_000, 10), &[("dispatches>W", 0.4), ("saturated", 0.5)],
         ">= 2 workers and more dispatches than workers; with a stable set S of saturated workers the others are served round-robin and S receives nothing");
 }
@@ -191,7 +196,7 @@ pub fn run_c05(ctx: &Ctx) {
     run_l2_part(ctx, "l2", Prop::C05, P_C05, ctx.tier.scale(200_000, 10),
         &[("pause", 0.4), ("inject-fatal", 0.2), ("inject-per-connection", 0.2), ("uds", 0.4)],
         "the schedule contains a pause or an injected accept error (fatal or per-connection)");
-    run_l4_part(ctx, crate::l4::Prop::C05, crate::l4::gen::P { pause: 3, inject: 3, panic: 0, stop: 0, uds: true, max_limit: 4 }, ctx.tier.scale(200, 4), &[("pause", 0.4), ("inject", 0.4), ("backoff-under-load", 0.15)], "the script contains a pause or an injected accept error (exercises the real poll_with loop, which the stepped driver duplicates)");
+    run_l4_part(ctx, crate::l4::Prop::C05, crate::l4::gen::P { pause: 3, inject: 3, panic: 0, stop: 0, busy: 0, uds: true, max_limit: 4 }, ctx.tier.scale(200, 4), &[("pause", 0.4), ("inject", 0.4), ("backoff-under-load", 0.08)], "the script contains a pause or an injected accept error (exercises the real poll_with loop, which the stepped driver duplicates)");
 }
 
 pub fn replay_c05(ctx: &Ctx, v: &Value) -> i32 {
@@ -207,9 +212,9 @@ pub fn run_c08(ctx: &Ctx) {
     ctx.assume("a worker fault is modelled as the drop of the worker's queue receiver (what the death of a worker thread does, the receiver being the first field of ServerWorker); outstanding guards of the dead worker may be dropped later (late notifications)");
     ctx.run_corpus::<Case>("l2", |c| check(Prop::C08, c));
     run_l2_part(ctx, "l2", Prop::C08, P_C08, ctx.tier.scale(200_000, 10),
-        &[("fault-discovered", 0.4), ("replace", 0.3), ("late-finish-of-dead-worker", 0.1), ("kill-saturated", 0.05), ("kill-idle", 0.2)],
+        &[("fault-discovered", 0.4), ("replace", 0.3), ("late-finish-of-dead-worker", 0.05), ("kill-saturated", 0.03), ("kill-idle", 0.2)],
         "a kill followed by a connect + step that discovers the fault");
-    run_l4_part(ctx, crate::l4::Prop::C08, crate::l4::gen::P { pause: 0, inject: 0, panic: 4, stop: 0, uds: false, max_limit: 2 }, ctx.tier.scale(300, 4), &[("worker-panic", 0.3)], "a worker was killed by a panic inside Service::call (guards dropped while unwinding)");
+    run_l4_part(ctx, crate::l4::Prop::C08, crate::l4::gen::P { pause: 0, inject: 0, panic: 4, stop: 0, busy: 0, uds: false, max_limit: 2 }, ctx.tier.scale(300, 4), &[("worker-panic", 0.3)], "a worker was killed by a panic inside Service::call (guards dropped while unwinding)");
 }
 
 pub fn replay_c08(ctx: &Ctx, v: &Value) -> i32 {
@@ -235,7 +240,7 @@ pub fn run_c01(ctx: &Ctx) {
         l3gen::c07_strategy,
         |c| crate::l3::run_case(c, crate::l3::Prop::C01),
     );
-    run_l4_part(ctx, crate::l4::Prop::C01, crate::l4::gen::P { pause: 1, inject: 0, panic: 0, stop: 0, uds: true, max_limit: 3 }, ctx.tier.scale(300, 4), &[("served-by>=2-workers", 0.3)], "connections were served by at least two worker threads or two listeners exist (each connection is served exactly once by the service of the listener it connected to)");
+    run_l4_part(ctx, crate::l4::Prop::C01, crate::l4::gen::P { pause: 1, inject: 0, panic: 0, stop: 0, busy: 0, uds: true, max_limit: 3 }, ctx.tier.scale(300, 4), &[("served-by>=2-workers", 0.2)], "connections were served by at least two worker threads or two listeners exist (each connection is served exactly once by the service of the listener it connected to)");
 }
 
 pub fn replay_c01(ctx: &Ctx, v: &Value) -> i32 {
@@ -341,7 +346,7 @@ pub fn run_c06(ctx: &Ctx) {
         l3gen::c06_strategy,
         |c| l3::run_case(c, l3::Prop::C06),
     );
-    run_l4_part(ctx, crate::l4::Prop::C06, crate::l4::gen::P { pause: 1, inject: 0, panic: 0, stop: 1, uds: false, max_limit: 3 }, ctx.tier.scale(96, 4), &[("stop-with-held-connections", 0.4), ("graceful-stop", 0.3), ("forced-stop", 0.3)], "a stop was issued while connections were held open");
+    run_l4_part(ctx, crate::l4::Prop::C06, crate::l4::gen::P { pause: 1, inject: 0, panic: 0, stop: 1, busy: 2, uds: false, max_limit: 3 }, ctx.tier.scale(96, 4), &[("worker-thread-busy", 0.04), ("stop-with-held-connections", 0.25), ("graceful-stop", 0.2), ("forced-stop", 0.2)], "a stop was issued while connections were held open");
     run_c06_signals(ctx);
 }
 
@@ -401,7 +406,7 @@ pub fn run_c10(ctx: &Ctx) {
     ctx.run_corpus::<rt::C10Case>("threads", rt::check_c10);
     ctx.run_random(
         Part::new("threads", "command scripts (spawn of tasks that complete / yield / pend forever / panic / send nested commands through Arbiter::current() / hold the arbiter thread while further commands are queued and then send a nested command / stop their own arbiter and then spawn; spawn_fn; sync markers; stop; bursts of 100-280 functions) issued through the owner handle and cloned handles on up to two other threads with hand-over, against a thread arbiter or the system arbiter; oracle on the start log (id, thread, system): strictly increasing ids in start order, no id twice, every start on the arbiter thread with the creating system, everything sent before a sync marker started before it ran, nothing sent after stop() returned ever starts, after join() spawn/stop return false and nothing starts, block_on returns its output; non-trivial = a stop that is not last with commands after it, or >= 2 senders, or a panicking/pending task", ctx.tier.scale(4_000, 8))
-            .floors(&[("senders>=2", 0.4), ("sent-after-stop", 0.25), ("gated", 0.15), ("system-arbiter", 0.1)])
+            .floors(&[("senders>=2", 0.4), ("sent-after-stop", 0.25), ("gated", 0.1), ("system-arbiter", 0.1)])
             .shrink_iters(300),
         rt::gen::c10,
         rt::check_c10,
